@@ -344,6 +344,12 @@ def protectedAt (P : Program) : Nat → String → String → Option CmpK
     | none => none
     | some impl => protectedBody P.helpers (protectedAt P f) impl.body
 
+/-- the first statement of a body that is not a no-op, if it is a rejecting `if`: its condition -/
+def firstGuard : List Stmt → Option BExpr
+  | .rejectIf g :: _ => some g
+  | .nop _ :: rest => firstGuard rest
+  | _ => none
+
 /-- the regenerated program -/
 def prog : Program := ⟨C16Sem.helpers, C16Sem.impls, C16Sem.types⟩
 
